@@ -93,6 +93,15 @@ ThmInverse(fr) ==
 ThmParseval(fr) ==
     LET m == Len(fr)  n == Len(fr[1])  g == FullPeriod(m, n) IN
     Eq(Energy(Forward(fr, g)), Scale(m * n, Energy(fr)))
+\* ... and on a ZERO-PADDED full period (alpha = 1/K per axis, K >= input size, output shape K): forward and inverse
+\* (conj o forward o conj) both satisfy SUM |F|^2 = K_r K_c SUM |f|^2, i.e. both conserve energy under the unitary tag
+Padded(Kr, Kc) == [pr |-> 1, qr |-> Kr, pc |-> 1, qc |-> Kc, sr |-> 0, sc |-> 0, sq |-> 1, or |-> 0, oc |-> 0, M |-> Kr, K |-> Kc]
+ThmParsevalPadded(fr, Kr, Kc) ==
+    /\ Kr >= Len(fr) /\ Kc >= Len(fr[1])
+    /\ Eq(Energy(Forward(fr, Padded(Kr, Kc))), Scale(Kr * Kc, Energy(fr)))
+    /\ Eq(Energy(InverseRaw(fr, Padded(Kr, Kc))), Scale(Kr * Kc, Energy(fr)))
+    /\ LET a == NormSq(Padded(Kr, Kc), TRUE) IN a[1] * Kr * Kc = a[2]
+
 \* an input offset is the same as embedding the array, displaced, in a larger array of zeros
 EmbedIn(fr, big, o) ==        \* big = <<mm, nn>>; the origin sample of fr goes to origin + o
     LET m == Len(fr)  n == Len(fr[1]) IN
